@@ -493,7 +493,13 @@ pub fn inject(cfg: &EmfCfg, e: &GenEntry, d: Defect, seed: u32, pos: u32) -> Opt
             if !ops.iter().any(|o| matches!(o, Op::Timestamp { .. })) {
                 ops.push(Op::Timestamp { secs: 5, nanos: 0, before_epoch: false });
             }
-            insert_after(&mut ops, 0, Op::Timestamp { secs: 6, nanos: 1, before_epoch: false });
+            // "more than one timestamp" - also when the second one repeats the first exactly
+            let second = if seed % 2 == 0 {
+                ops.iter().find(|o| matches!(o, Op::Timestamp { .. })).cloned().unwrap()
+            } else {
+                Op::Timestamp { secs: 6, nanos: 1, before_epoch: false }
+            };
+            insert_after(&mut ops, 0, second);
         }
         Defect::EmptyName | Defect::AwsName => {
             let name = if d == Defect::EmptyName { "" } else { "_aws" }.to_string();
